@@ -123,6 +123,8 @@ func exprStr(e ast.Expr) string {
 		return exprStr(t.X)
 	case *ast.UnaryExpr:
 		return t.Op.String() + exprStr(t.X)
+	case *ast.TypeAssertExpr:
+		return exprStr(t.X) + ".(T)"
 	}
 	return "?"
 }
@@ -559,6 +561,22 @@ func irFile(dir string, names []string, ns string) string {
 		emit("addNoOver", pick("addNoOver"), false)
 		emit("addIfExist", pick("addIfExist"), false)
 		emit("remove", pick("remove", "Remove"), true)
+		emit("get", pick("Get"), false)
+		emit("contains", pick("ContainsKey", "Contains"), false)
+		emit("getLRU", pick("GetLRU"), false)
+		emit("removeFirst", pick("RemoveFirst"), false)
+		emit("removeLast", pick("RemoveLast"), false)
+		emit("clear", pick("clear", "Clear"), false)
+		if ms["ContainsValue"] != nil {
+			sb.WriteString(fmt.Sprintf("/-- %s.ContainsValue -/\ndef %s_cv : CVFacts :=\n  %s\n\n", n, n, cvFacts(ms["ContainsValue"])))
+		}
+		if ms["ToBytes"] != nil && ms["ToObject"] != nil {
+			sb.WriteString(fmt.Sprintf("/-- %s.ToBytes -/\ndef %s_toBytes : WireFacts :=\n  %s\n\n", n, n, wireFacts(ms["ToBytes"], false)))
+			sb.WriteString(fmt.Sprintf("/-- %s.ToObject -/\ndef %s_toObject : WireFacts :=\n  %s\n\n", n, n, wireFacts(ms["ToObject"], true)))
+		}
+		if ms["Sort"] != nil {
+			sb.WriteString(fmt.Sprintf("/-- %s.Sort -/\ndef %s_sort : SortFacts :=\n  %s\n\n", n, n, sortFacts(ms["Sort"], n)))
+		}
 		sb.WriteString(fmt.Sprintf("/-- %s.rehash -/\ndef %s_rehash : RehashFacts :=\n  %s\n\n", n, n, rehashFacts(ms["rehash"])))
 	}
 	sb.WriteString("end " + ns + "\n")
